@@ -44,7 +44,7 @@ man = {
     "hooks": {
         "guard": "verif",
         "enable": "go build -tags verif (the harness module under /verif/harness has `replace honnef.co/go/tools => /repo`)",
-        "baseline_off_cmd": "cd /repo && GOFLAGS=-mod=mod go test -vet=off -count=1 -timeout 25m ./...",
+        "baseline_off_cmd": "for m in . website; do (cd /repo/$m && GOFLAGS=-mod=mod GOPROXY=off go test -json -vet=off -count=1 -timeout 25m ./...); done",
         "source_commits": [l.strip() for l in open(os.path.join(ROOT, "tools", "hook_commits.txt")) if l.strip() and not l.startswith("#")],
         "add_only": True,
     },
